@@ -45,8 +45,11 @@ def load_property(prop):
             for c in cs:
                 if id(c) not in before and not hasattr(c, '_module'):
                     c._module = m
+    # every other sidecar module is imported as well: a contract TAGGED for this property is part of its check wherever it
+    # is written (seed S-C02-6 was missed because a contract tagged C02 lived in a module the C02 check did not load), and
     # callee contracts from other properties' modules must be loadable too
-    for m in contracts.SHARED_MODULES:
+    others = [m for ms in contracts.PROPERTY_MODULES.values() for m in ms if m not in mods]
+    for m in list(dict.fromkeys(others)) + list(contracts.SHARED_MODULES):
         before = {id(c) for cs in spec.REGISTRY.values() for c in cs}
         importlib.import_module(m)
         for cs in spec.REGISTRY.values():
